@@ -1071,7 +1071,9 @@ class FieldDomain:
         """
         key = self.construct_key(*identity, default=None, **filter_kwargs)
         if key is not None:
-            return self.constructs._del_construct(key)
+            # Delete via the parent class, so that its checks on
+            # whether or not the construct may be removed are applied
+            return super().del_construct(key)
 
         if default is None:
             return default
